@@ -35,6 +35,26 @@ def shadow_prog(rng):
     elif form == 11: body = "if true { %s := user; out = append(out, %s) }\nout = append(out, %s)\n" % (b, use, use)
     else: body = "g := func(...%s) { return len(%s) }\nout = append(out, g(1, 2))\n" % (b, b)
     post = "out = append(out, func() { return %s }())\n" % use if rng.random() < .4 and form not in (2, 3, 4) else ""
+    # the use again from scopes nested below the binding, inside unary / binary expressions, with a literal constant
+    # declared (a visible const makes the compiler fold expressions while compiling, not only in the optimizer pass)
+    cpre = rng.choice(["", "", "const one = 1\n", "const (\n\tzero = iota\n\tone\n)\n"])
+    k1 = "one" if cpre else "1"
+    wrapped = rng.choice(["%s + %s" % (k1, use), "-%s" % use, "%s == %s" % (use, k1), "!%s" % use, use])
+    if form in (0, 1, 9, 10, 11) or (form in (3, 4) and b != use):
+        nest = rng.choice(["h := func() { return %s }\nout = append(out, h())\n",
+                           "if true { out = append(out, %s) }\n",
+                           "h2 := func() { if true { return func() { return %s }() } }\nout = append(out, h2())\n",
+                           "for i := 0; i < 1; i++ { out = append(out, %s) }\n"]) % wrapped
+        if form == 11: nest = "if true { %s := user\n%s}\n" % (b, nest)
+        if form == 9: nest = "g2 := func() { %s := user\n%sreturn 0 }\ng2()\n" % (b, nest)
+        post += nest
+    elif form in (5, 12):
+        post += "g3 := func(%s%s) { k := func() { return %s }; return k() }\nout = append(out, g3(user))\n" % ("..." if form == 12 else "", b, wrapped if form == 5 else "len(%s) + %s" % (b, k1))
+    elif form in (7,):
+        post += "for _, %s in [user] { h := func() { return %s }; out = append(out, h()) }\n" % (b, wrapped)
+    elif form == 8:
+        post += "try { throw \"e\" } catch %s { h := func() { return %s + typeName(%s) }; out = append(out, h()) }\n" % (b, '"t"', b)
+    pre = cpre + pre if form != 3 else pre + cpre
     consts = rng.choice(["", "out = append(out, (1 + 2) * 3, \"a\" + \"b\", -(-3), !0, 7 / 2, 7 % 3, 1 << 4, 2.5 * 2.0, 1 ? 2 : 3)\n",
                          "if 0 { out = append(out, \"dead\") } else { out = append(out, \"live\") }\n",
                          "out = append(out, -0.0, 0.0, string(-0.0), 1.5 - 1.5)\n"])
